@@ -1,10 +1,13 @@
 import CobaVerif.Driver.JsonUtil
 import CobaVerif.Model.C04
 import CobaVerif.Driver.C09
+import CobaVerif.Driver.C10
 open Lean Coba.J
 
 namespace Coba.C04.Driver
 open Coba.C04
+
+def ofNatListJson (l : List Nat) : Json := ofList ofNat l
 
 /-- identifier that no interned interaction has: "the model cannot say" -/
 def poison : Nat := 4000000000
@@ -104,11 +107,49 @@ def parseFilt (att : Nat → Attr) (j : Json) : Except String PureSt := do
     pure ((Filt.mapE g).toPure att par)
   | _ => throw s!"unknown filter {op}"
 
+/-- dict entries sorted by key, lazy rows by index: the order of a dict is not part of what is compared -/
+partial def canonVal : C10.Val → C10.Val
+  | .list xs => .list (xs.map canonVal)
+  | .tuple xs => .tuple (xs.map canonVal)
+  | .dict kvs => .dict ((kvs.map (fun p => (p.1, canonVal p.2))).mergeSort (fun a b => decide (a.1 ≤ b.1)))
+  | .lazy kvs n => .lazy ((kvs.map (fun p => (p.1, canonVal p.2))).mergeSort (fun a b => decide (a.1 ≤ b.1))) n
+  | v => v
+
+/-- what is observable of an interaction (values, rewards and feedbacks evaluated on every action), as a key -/
+def contentKey (I : C10.Inter) : String :=
+  let J : C10.Inter := { I with context := canonVal I.context, actions := I.actions.map (·.map canonVal), action := I.action.map canonVal }
+  -- the observables are computed on the interaction itself (reward functions are keyed by the actions as they are)
+  let base := C10.Driver.interToJson I
+  let shown := C10.Driver.interToJson J
+  (Json.mkObj [("v", Json.mkObj [("context", fieldD shown "context" Json.null), ("actions", fieldD shown "actions" Json.null),
+                                  ("action", fieldD shown "action" Json.null)]),
+               ("index", fieldD base "index" Json.null), ("reward", fieldD base "reward" Json.null),
+               ("probability", fieldD base "probability" Json.null),
+               ("obs_rewards", fieldD base "obs_rewards" Json.null), ("obs_feedbacks", fieldD base "obs_feedbacks" Json.null)]).compress
+
+def parseContentTable (j : Json) : Except String (List (Nat × C10.Inter)) := do
+  (← arr j).mapM (fun e => do
+    match (← arr e) with
+    | [a, b] => pure ((← nat a), (← C10.Driver.parseInter b))
+    | _ => throw "content entry must be [id, interaction]")
+
+/-- a content-rewriting filter as the real function of `Model/C10` between interned contents -/
+def parseContent (j : Json) : Except String PureSt := do
+  let st ← C10.Driver.parseStep (← field j "step")
+  let cfg ← C10.Driver.parseCfg (fieldD j "cfg" (Json.mkObj []))
+  let ins ← parseContentTable (← field j "in")
+  let outs ← parseContentTable (← field j "out")
+  let keys := outs.map (fun p => (contentKey p.2, p.1))
+  let dec : Nat → C10.Inter := fun i => match ins.find? (fun p => p.1 == i) with | some (_, I) => I | none => {}
+  let enc : C10.Inter → Nat := fun I => match keys.lookup (contentKey I) with | some i => i | none => poison
+  pure (contentPure dec enc cfg st (← natList (fieldD j "par" (Json.arr #[]))))
+
 def parseNode (att : Nat → Attr) (fin : PureSt) (u : List Nat) (j : Json) : Except String Node := do
   let k ← str (← field j "k")
   match k with
   | "pure" => pure (.pure (← parsePure j))
   | "filt" => pure (.pure (← parseFilt att j))
+  | "content" => pure (.pure (← parseContent j))
   | "shuffle" =>
     let perms ← (← arr (← field j "perms")).mapM natList
     let pars ← (← arr (← field j "par")).mapM natList
@@ -158,8 +199,6 @@ def outToJson : Out → Json
   | .err => Json.str "err"
   | .skip => Json.str "skip"
 
-def ofNatListJson (l : List Nat) : Json := ofList ofNat l
-
 def nodeFixedB : Node → Bool
   | .shuffle .asis _ _ _ _ => false
   | _ => true
@@ -195,6 +234,16 @@ def handleMemo (j : Json) : Except String Json := do
       match (← arr q) with
       | [a, b] => pure ((← nat a), (← nat b))
       | _ => throw "query must be [inst,arg]"))
+  -- `Grounded.filter`: `userid,normal = rng.choice(userid_isnormal)` once per interaction with `rng = CobaRandom(self._seed)`
+  let users ← match j.getObjVal? "users" with
+    | .ok u => do pure (some ((← C09.Driver.parseSeed (← field u "seed")).norm, (← nat (← field u "n")), (← nat (← field u "normal"))))
+    | .error _ => pure none
+  let userOf : Nat → Nat := fun t => match users with
+    | some (s0, n, _) => C05.scaled ((List.range t).foldl (fun st _ => C05.next st) s0) n
+    | none => 0
+  let insts := match users with
+    | some (_, _, nn) => insts.mapIdx (fun t (p : Nat × Nat × Nat × Nat × Bool) => (p.1, p.2.1, p.2.2.1, p.2.2.2.1, decide (userOf t < nn)))
+    | none => insts
   let draw : Nat → Nat → Nat → Nat := fun i k a =>
     match insts[i]? with
     | none => poison
@@ -203,17 +252,46 @@ def handleMemo (j : Json) : Except String Json := do
       -- normal users answer the argmax with a good word, the others with a bad one
       let useGood := (a == argmax) == normal
       if useGood then C05.scaled s ngood else ngood + C05.scaled s nbad
-  pure (obj [("values", ofList (ofList ofNat) (Memo.reads cap draw ⟨[], []⟩ reads))])
+  pure (obj [("values", ofList (ofList ofNat) (Memo.reads cap draw ⟨[], []⟩ reads)),
+             ("userids", ofNatListJson ((List.range insts.length).map userOf)),
+             ("normals", ofList (fun (p : Nat × Nat × Nat × Nat × Bool) => Json.bool p.2.2.2.2) insts)])
+
+/-- aliasing model: {"alias":{"stages":["share"|"copy"|"inplace"…],"store":[…],"held":[…],"mul":k}}: two reads of the held
+objects through stages that rewrite a value v to v*mul+1 -/
+def handleAlias (j : Json) : Except String Json := do
+  let mul ← nat (fieldD j "mul" (ofNat 2))
+  let g : Nat → Nat := fun v => v * mul + 1
+  let stages ← (← arr (← field j "stages")).mapM (fun e => do
+    match (← str e) with
+    | "share" => pure AStage.share
+    | "copy" => pure (AStage.copyMap g)
+    | "inplace" => pure (AStage.inPlace g)
+    | x => throw s!"unknown stage kind {x}")
+  let st ← natList (← field j "store")
+  let held ← natList (← field j "held")
+  let r1 := readOnce stages st held
+  let r2 := readOnce stages r1.1 held
+  pure (obj [("first", ofNatListJson (deliver r1)), ("second", ofNatListJson (deliver r2)),
+             ("heldAfter1", ofNatListJson (held.map (fun a => r1.1.getD a 0))),
+             ("heldAfter2", ofNatListJson (held.map (fun a => r2.1.getD a 0))),
+             ("noWriter", Json.bool (stages.all (fun s => !s.writesInput)))])
 
 /-- request: {"variant","fin":{table},"attrs":[…],"objs":[{src,nodes,ownFin}…] (or a single "src"/"nodes"/"ownFin"),
 "caller":[[tokens]…],"hist":[…]}; answer: model outputs per operation, per object the denotation and denoted
 params, whether the hypotheses of `reread` hold, and the caller-owned cells after the history -/
 def handle (req : Json) : Except String Json := do
+  match req.getObjVal? "alias" with
+  | .ok a => handleAlias a
+  | .error _ =>
   match req.getObjVal? "memo" with
   | .ok m => handleMemo m
   | .error _ =>
   let variant := parseVariant (← str (← field req "variant"))
-  let fin ← parsePure (← field req "fin")
+  let finJ ← field req "fin"
+  -- Finalize's stateless part: Model/C10's function on content when the request carries the content, else its table
+  let fin ← match finJ.getObjVal? "content" with
+    | .ok c => parseContent c
+    | .error _ => parsePure finJ
   let attrs ← (← arr (fieldD req "attrs" (Json.arr #[]))).mapM parseAttr
   let att := attrOf attrs
   let objs ← match req.getObjVal? "objs" with
@@ -230,6 +308,8 @@ def handle (req : Json) : Except String Json := do
              ("denParams", ofNatListJson o0.denParams),
              ("dens", ofList (fun (o : Obj) => ofNatListJson o.den) objs),
              ("hyp", Json.bool (objs.all (hypB w))),
-             ("caller", ofList ofNatListJson (hrunW h ops).caller)])
+             ("caller", ofList ofNatListJson (hrunW h ops).caller),
+             ("saveBatches", ofList (fun (o : Obj) => ofNat (saveBatches 999 o.den).length) objs),
+             ("saveRoundTrip", Json.bool (objs.all (fun o => loadBatches (saveBatches 999 o.den) == o.den)))])
 
 end Coba.C04.Driver
